@@ -115,6 +115,27 @@ class ObsHarness(planh.PlanHarness):
         kw = super().run_kwargs()
         if self.registry is not None:
             kw["registry"] = self.registry
+        tr = self.cfg.get("transform")
+        if tr:
+            harness = self
+
+            def extra_fn():
+                s_ = e1.sched()
+                s_.log("xstart", "extra")
+                return "extra"
+            extra_fn.__name__ = extra_fn.__qualname__ = "extra_fn"
+            from uberjob._util import fully_qualified_name as _fqn
+            self.extra_scope = ("added-by-transform", _fqn(extra_fn))
+
+            def tp(p, o):
+                # a user transformation: one more call in its own scope; 'copy' returns a NEW Plan object, 'inplace' edits the given one
+                q = p.copy() if tr == "copy" else p
+                with q.scope("added-by-transform"):
+                    extra = q.call(extra_fn)
+                if o is not None:
+                    q.add_dependency(extra, o)
+                return q, o
+            kw["transform_physical"] = tp
         ob = self.cfg["observer"]
         if ob == "reuse-composite":
             kw["progress"] = self.reused_progress
@@ -181,8 +202,8 @@ class ObsHarness(planh.PlanHarness):
             # independent count: 'run' total of a user scope == number of user calls executed with that scope
             started = {}
             for e in ev:
-                if e[0] == "start":
-                    sc = self.user_scope[e[1]]
+                if e[0] in ("start", "xstart"):
+                    sc = self.extra_scope if e[0] == "xstart" else self.user_scope[e[1]]
                     started[sc] = started.get(sc, 0) + 1
             totals = {}
             for e in seq:
@@ -345,6 +366,10 @@ def cfgs(tier, W):
             if tier == "quick" and W == 2:
                 stored_opts = [None, stored_opts[1 + si % 2]]
             for stored in stored_opts:
+                if W == 1 and stored is None and me == 0 and not fp:
+                    for tr in ("copy", "inplace"):
+                        out.append({"n": n, "edges": edges, "scopes": scopes, "fname": fname, "output": output, "W": W, "sched": "default",
+                                    "fail": None, "max_errors": 0, "stored": None, "observer": "rec", "transform": tr})
                 obs_opts = ("rec", "rec2") if (W == 1 or tier != "quick") else ("rec",)
                 if W == 1 and stored is None and (me == 0 or tier != "quick"):
                     obs_opts += ("list3", "list3fail1", "list3fail2", "list2fail0", "reuse-composite")
